@@ -2,6 +2,7 @@ package dbm
 
 import (
 	"strings"
+	"sync"
 	"testing"
 
 	"github.com/cockroachdb/pebble"
@@ -199,12 +200,12 @@ func crashGen(quickStride int) func(t *rapid.T, o OptPlan) *CrashPlan {
 }
 
 var crashOpt = func(t *rapid.T, o *OptPlan) {
-	o.MemTableSize = rapid.SampledFrom([]int{4 << 10, 8 << 10, 32 << 10}).Draw(t, "cmem")
+	o.MemTableSize = rapid.SampledFrom([]int{4 << 10, 8 << 10, 32 << 10, 256 << 10}).Draw(t, "cmem")
 	o.MaxManifest = rapid.SampledFrom([]int64{1, 200, 4096}).Draw(t, "cmaxman")
 }
 
 var profCrashDurable = Profile{
-	Name: "crash-durable", MinSteps: 8, MaxSteps: 35, DurableIngest: true, SyncPct: 45,
+	Name: "crash-durable", BigRecordPct: 6, SchedPct: 60, MinSteps: 8, MaxSteps: 35, DurableIngest: true, SyncPct: 45,
 	W: map[string]int{"write": 40, "batch": 14, "bigbatch": 2, "flush": 6, "compact": 3, "wait": 3, "ingest": 4, "ingestexcise": 2, "excise": 1, "restart": 2},
 	OpW: opWDefault, CrashGen: crashGen(9),
 	Opt: func(t *rapid.T, o *OptPlan) { crashOpt(t, o); o.DisableWAL = false },
@@ -250,7 +251,7 @@ func crashCheck(t *testing.T, id string, prof Profile, rule string, quick, thoro
 }
 
 var profCrashPrefix = Profile{
-	Name: "crash-prefix", MinSteps: 10, MaxSteps: 40, DurableIngest: true, SyncPct: 12,
+	Name: "crash-prefix", BigRecordPct: 6, SchedPct: 60, MinSteps: 10, MaxSteps: 40, DurableIngest: true, SyncPct: 12,
 	W: map[string]int{"write": 30, "batch": 26, "bigbatch": 2, "flush": 4, "compact": 2, "wait": 3, "ingest": 2, "restart": 1, "crashrestart": 5},
 	OpW: map[string]int{"set": 22, "del": 12, "merge": 16, "delrange": 10, "sdel": 8, "delsized": 4, "rkset": 6, "rkunset": 3, "rkdel": 2, "logdata": 1},
 	CrashGen: crashGen(11),
@@ -292,7 +293,7 @@ func TestC11(t *testing.T) {
 }
 
 var profCrashFlush = Profile{
-	Name: "crash-flush", MinSteps: 8, MaxSteps: 30, DurableIngest: true, SyncPct: 1,
+	Name: "crash-flush", BigRecordPct: 6, SchedPct: 60, MinSteps: 8, MaxSteps: 30, DurableIngest: true, SyncPct: 1,
 	W: map[string]int{"write": 40, "batch": 14, "flush": 12, "compact": 3, "wait": 4, "restart": 6, "ingest": 2},
 	OpW: opWDefault, CrashGen: crashGen(9),
 	Opt: func(t *rapid.T, o *OptPlan) {
@@ -344,7 +345,7 @@ func TestC13(t *testing.T) {
 }
 
 var profManifest = Profile{
-	Name: "manifest", MinSteps: 8, MaxSteps: 26, DurableIngest: true, SyncPct: 30,
+	Name: "manifest", SchedPct: 60, MinSteps: 8, MaxSteps: 26, DurableIngest: true, SyncPct: 30,
 	W: map[string]int{"write": 30, "batch": 10, "flush": 16, "compact": 10, "wait": 4, "ingest": 10, "ingestexcise": 4, "excise": 3, "restart": 2},
 	OpW: opWDefault,
 	CrashGen: func(t *rapid.T, o OptPlan) *CrashPlan {
@@ -368,7 +369,7 @@ func TestC22(t *testing.T) {
 }
 
 var profRatchet = Profile{
-	Name: "ratchet", MinSteps: 8, MaxSteps: 28, DurableIngest: true, SyncPct: 40,
+	Name: "ratchet", SchedPct: 60, MinSteps: 8, MaxSteps: 28, DurableIngest: true, SyncPct: 40,
 	W: map[string]int{"write": 34, "batch": 10, "flush": 8, "compact": 3, "wait": 2, "ingest": 3, "restart": 3, "ratchet": 10, "get": 4, "scan": 3},
 	OpW: opWDefault, CrashGen: crashGen(5),
 	Opt: func(t *rapid.T, o *OptPlan) {
@@ -583,4 +584,83 @@ func TestC47(t *testing.T) {
 	if err := leakedIteratorControl(); err != nil {
 		t.Errorf("VIOLATION-CONTROL: %v", err)
 	}
+}
+
+var profMaint = Profile{
+	Name: "maintenance", MinSteps: 18, MaxSteps: 70, IterOpsMax: 5, MaxIters: 3, MaxSnaps: 3, MaxEFOS: 1, MaxBatches: 1, BigValues: true,
+	W: map[string]int{"write": 30, "batch": 10, "bigbatch": 1, "ingest": 5, "ingestexcise": 2, "excise": 2, "snap": 6, "snapclose": 2, "efos": 2, "efosclose": 1,
+		"iternew": 7, "iterop": 8, "iterclose": 2, "ibnew": 1, "ibop": 2, "ibclose": 1, "maint": 18, "restart": 1},
+	OpW: map[string]int{"set": 30, "del": 10, "merge": 6, "delrange": 10, "sdel": 5, "delsized": 4, "rkset": 6, "rkunset": 3, "rkdel": 2},
+	Opt: func(t *rapid.T, o *OptPlan) {
+		o.MemTableSize = rapid.SampledFrom([]int{4 << 10, 8 << 10, 32 << 10}).Draw(t, "c14mem")
+		o.TargetFileSize = rapid.SampledFrom([]int64{64, 256, 1 << 10}).Draw(t, "c14tfs")
+		o.LBaseMaxBytes = rapid.SampledFrom([]int64{256, 1 << 10, 8 << 10}).Draw(t, "c14lbase")
+		o.ConcurrencyMax = rapid.IntRange(1, 3).Draw(t, "c14conc")
+		o.DisableAutoCompaction = rapid.IntRange(0, 9).Draw(t, "c14noauto") == 0
+		if o.FMV >= int(pebble.FormatValueSeparation) && rapid.Bool().Draw(t, "c14vs") {
+			o.ValSep, o.ValSepMinSize, o.ValSepDepth, o.ValSepGarbageLow = true, rapid.SampledFrom([]int{4, 10, 32}).Draw(t, "c14vsmin"), rapid.IntRange(1, 3).Draw(t, "c14vsd"), rapid.SampledFrom([]int{1, 5, 30}).Draw(t, "c14vsg")
+		}
+	},
+}
+
+// maintKinds are the kinds of background work the C14 statement lists that this
+// engine can provoke (copy and download compactions need remote storage and are
+// reported as not covered).
+var maintKinds = []string{"flush", "default", "move", "delete-only", "elision-only", "intra-L0", "blob-file-rewrite", "virtual-sst-rewrite", "rewrite", "multilevel", "ingested-flushable"}
+
+func TestC14(t *testing.T) {
+	InBubble = true
+	var mu sync.Mutex
+	seen := map[string]int{}
+	evid.Run(t, evid.Spec[Plan]{
+		ID: "C14", Level: "exploration", Bubble: true,
+		Rule: "histories (writes, batches, ingests, excises) with up to 3 snapshots, an EFOS, an indexed batch and up to 3 positioned iterators open; at 'maint' steps a digest of everything every open reader shows (latest full scan, each snapshot, each EFOS range, a Clone of each open iterator; forward and reverse transcripts with values and range keys) is taken, one maintenance operation runs (Flush; Compact whole/partial, parallel or not; wait for automatic compactions; RatchetFormatMajorVersion; close the oldest snapshot and wait, which unblocks elision-only/delete-only compactions) followed by quiescence (synctest.Wait), and the digest is taken again: both digests must be identical and equal to the model transcripts. " +
+			"non-trivial = a compaction or flush finished between the two digests of some maint step while at least one snapshot, EFOS or iterator was open; distinct = hash of plan JSON. counters maint-kind=<kind> give the number of finished jobs per kind between digests; kinds never observed in a run are listed in coverage.kinds_missing (copy/download compactions need remote storage and are not generated)",
+		Assumptions: commonAssumptions,
+		Gen:         func(t *rapid.T) Plan { return Generate(t, profMaint) },
+		Exec: func(p Plan) (evid.Outcome, error) {
+			res, err := RunPlan(p, nil)
+			out := res.Outcome()
+			out.NonTrivial = res.C["maint-with-work-and-readers"] > 0
+			mu.Lock()
+			for k, v := range res.C {
+				if strings.HasPrefix(k, "maint-kind-with-readers=") {
+					seen[strings.TrimPrefix(k, "maint-kind-with-readers=")] += v
+				}
+			}
+			mu.Unlock()
+			return out, err
+		},
+		Quick: 400, Thorough: 1500,
+		Sample: func(p Plan) any { return p.Summary() },
+		ExtraCoverage: func() map[string]any {
+			mu.Lock()
+			defer mu.Unlock()
+			var missing []string
+			for _, k := range maintKinds {
+				if seen[k] == 0 {
+					missing = append(missing, k)
+				}
+			}
+			missing = append(missing, "copy (not generated)", "download (not generated)")
+			return map[string]any{"kinds_seen_with_readers_open": seen, "kinds_missing": missing}
+		},
+	})
+}
+
+var profScanInternal = Profile{
+	Name: "scaninternal", MinSteps: 12, MaxSteps: 55, IterOpsMax: 4, MaxSnaps: 2, MaxEFOS: 1, MaxIters: 1, NoMergeSdel: true,
+	W: map[string]int{"write": 30, "batch": 12, "flush": 8, "compact": 4, "wait": 3, "ingest": 4, "ingestexcise": 1, "excise": 1, "snap": 4, "snapclose": 1, "efos": 2, "efosclose": 1,
+		"scaninternal": 22, "scan": 3, "restart": 1},
+	OpW: map[string]int{"set": 26, "del": 10, "merge": 12, "delrange": 10, "sdel": 5, "delsized": 4, "rkset": 12, "rkunset": 6, "rkdel": 4},
+}
+
+func TestC45(t *testing.T) {
+	dbCheck(t, "C45", profScanInternal,
+		"histories of Set/Delete/DeleteSized/DeleteRange/range-key writes, batches, flushes, compactions, ingests, excises (no Merge or SingleDelete: scan_internal.go documents that the point-collapsing iterator must not be used on keyspaces holding them and panics by design; the metamorphic test disables them for its replicate op likewise); ScanInternal over drawn spans on the DB, on snapshots and on EFOS (inside their ranges); the visitor output (point internal keys with kind, range deletions, range-key spans) is written with sstable.Writer (sequence number 0, same kinds) and ingested into an empty DB with the same comparer; the destination's complete visible state must equal the model at the scan's version restricted to the span; additionally at most one point per user key, increasing order, no returned point covered by a returned newer range deletion, spans truncated to the bounds. "+
+			"non-trivial = some scan returned a tombstone or range deletion together with a range key over a non-empty span, with data flushed; distinct = hash of plan JSON",
+		300, 1500,
+		func(res Result, ls []string) bool {
+			return res.C["scaninternal-rich"] > 0 && hasLabel(ls, "flushed")
+		}, nil)
 }
